@@ -221,7 +221,14 @@ int skinny64_ctr_init(Skinny64CTR_t *ctr)
     ctr->vtable = vtable;
 
     /* Initialize the CTR mode context */
-    return (*(vtable->init))(ctr);
+    if ((*(vtable->init))(ctr))
+        return 1;
+
+    /* Initialization failed: leave the object inert so that it is
+       safe to pass to the cleanup function or to any other function */
+    ctr->vtable = 0;
+    ctr->ctx = 0;
+    return 0;
 }
 
 void skinny64_ctr_cleanup(Skinny64CTR_t *ctr)
